@@ -127,6 +127,15 @@ def cases(tier, seed):
                 for c, s in flags:
                     for cl, w in extra if units == 1.0 else [(False, False)]:
                         out.append(dict(model="POP", use_pca=use_pca, n_pca_modes=k, center=c, standardize=s, coslat=cl, weights=w, units=units, **ds))
+    # the whole field in tiny / huge physical units (a global factor; un-standardised and standardised): nothing stated depends on it
+    for gunit in ((1e-10, 1e-6, 1e8) if tier == "quick" else (1e-12, 1e-10, 1e-8, 1e-6, 1e-4, 1e8)):
+        for ds in _datasets(tier):
+            if not _ill_scaled_subset(ds, tier):
+                continue
+            p = ds["shape"][1]
+            for use_pca, k in [(False, None), (True, min(3, p)), (True, "all")]:
+                for c, s in flags:
+                    out.append(dict(model="POP", use_pca=use_pca, n_pca_modes=k, center=c, standardize=s, coslat=False, weights=False, units=1.0, gunit=gunit, **ds))
     # provenance of the model object the clauses are evaluated on (units 1, default coslat/weights)
     for prov in PROVENANCE[1:]:
         for ds in _datasets(tier):
@@ -223,6 +232,7 @@ def build_input(case, seed, other=False):
         u = np.ones(p)
         u[2:] = case["units"]
         X = X * u[None, :]
+    X = X * float(case.get("gunit", 1.0))
     nlat, nlon = GRID[p]
     lats = LATS[nlat]
     da = D.da_grid(X, nlat, nlon, lats=lats)
